@@ -3,7 +3,7 @@ from vlint.absint import const_eval
 from vlint.facts import callee_of, resolved, AnchorMissing
 from vlint.gates import field_of, root_of
 from vlint.paths import Summariser, ret_okness
-from vlint.terms import show, subterms, peel
+from vlint.terms import Sym, show, subterms, peel
 from vlint.util import must_of, sites
 from . import daemon
 from .panics import erase_sites, upper_bound
@@ -30,6 +30,7 @@ def run(ctx, chk):
     chk.rule("E2", "listener ids: reserved range rejected; accepted ids fit the dispatcher's 16-bit event id")
     chk.rule("E3", "ring id flows unchanged to add/delete; first matching thread only; dispatcher argument order")
     run_on(fb, chk)
+    e5e6(fb, chk)
     from . import xlist
     xlist.apply("C17", fb, chk)
     n = lambda r: len([i for i in chk.instances if i[0] == r])
@@ -197,3 +198,77 @@ def run_on(fb, chk, tag=""):
                   "not the queue the id was computed for" % [x for x in roots if x not in ("new", "with_capacity")], hn.loc(t["line"]))
     chk.check(ok, "E3", tag + "slice", "a ring joins a thread's slice iff its bit is set in the thread's mask (in queue order)",
               "per-thread ring slices are not selected by the mask bit", hn.loc())
+
+
+# ---------------------------------------------------------------------------- E5 / E6
+
+def e5e6(fb, chk, tag=""):
+    chk.rule("E5", "the worker's dispatcher reports `exit` (Ok(true)) only for the exit event: a ring event never stops the worker")
+    chk.rule("E6", "the ring objects shared with the workers at construction are never replaced: handler and workers keep referring to the same rings")
+    he = [f for f in fb.find(name="handle_event", self_adt="VringEpollHandler") if not f.trait][0]
+    hm = must_of(fb, he)
+    n = 0
+    for bi, b in enumerate(he.blocks):
+        if b["cleanup"] or bi not in hm.cfg.live_blocks():
+            continue
+        for st in b["stmts"]:
+            if not (st["k"] == "assign" and st["lhs"]["l"] == 0 and not st["lhs"]["p"]):
+                continue
+            v = hm.sym.rvalue(st["rv"])
+            if not (v[0] == "agg" and v[2] == "Ok" and v[3]):
+                continue
+            val = v[3][0][1]
+            n += 1
+            key = "%sexit-result:%d" % (tag, n)
+            if val[0] == "const":
+                if val[1] in (0, False):
+                    chk.ok("E5", key, "Ok(false)", he.loc(st.get("line")))
+                    continue
+                atoms = hm.atoms_at(bi)
+                isexit = any(a[0] == "cmp" and a[1] == "Eq" and "device_event" in show(a[2]) + show(a[3]) and "num_queues" in show(a[2]) + show(a[3])
+                             for a in atoms)
+                chk.check(isexit, "E5", key, "Ok(true) only under device_event == num_queues",
+                          "VringEpollHandler::handle_event returns Ok(true) (leave the event loop) on a path where the event is not the "
+                          "exit event: the worker stops and every later kick of its queues is lost", he.loc(st.get("line")))
+            else:
+                txt = show(val)
+                chk.check("device_event" in txt and "num_queues" in txt, "E5", key, "the result is the exit-event test itself",
+                          "VringEpollHandler::handle_event returns Ok(%s): not decided by the exit-event test" % txt[:60], he.loc(st.get("line")))
+    if n == 0:
+        chk.bad("E5", tag + "exit-result", "no Ok(..) result found in handle_event", he.loc())
+    # E6: no assignment to the `vrings` field and no element-replacing / resizing operation on it outside the constructors
+    # (iter_mut over the rings only calls their `&self` setters and is not a replacement)
+    MUT = {"index_mut", "get_mut", "push", "clear", "remove", "swap_remove", "insert", "truncate", "drain", "pop", "retain", "swap",
+           "replace", "take", "resize", "resize_with", "extend", "append", "split_off", "first_mut", "last_mut", "get_unchecked_mut"}
+    for owner in ("VhostUserHandler", "VringEpollHandler"):
+        hits = []
+        for f in fb.fns.values():
+            if f.name == "new" and (f.self_adt or "").endswith(owner):
+                continue
+            sym = None
+            for bi, b in enumerate(f.blocks):
+                if b["cleanup"]:
+                    continue
+                for st in b["stmts"]:
+                    if st["k"] == "assign" and st["lhs"]["p"]:
+                        last = st["lhs"]["p"][-1]
+                        if last["k"] == "field" and last.get("n") == "vrings" and (last.get("adt") or "").endswith(owner):
+                            hits.append((f.short, f.loc(st.get("line"))))
+                t = b["term"]
+                if t["k"] == "call":
+                    c = callee_of(t)
+                    if c and c.get("name") in MUT and t["args"]:
+                        sym = sym or Sym(f, fb)
+                        a0 = sym.arg_terms(bi)[0]
+                        x = a0
+                        while x[0] in ("ref", "deref", "cast") or (x[0] == "call" and x[1] in ("deref_mut", "as_mut_slice", "as_mut") and x[2]):
+                            x = x[2][0] if x[0] == "call" else x[1]
+                        if x[0] == "field" and x[2] == "vrings":
+                            base = x[1]
+                            while base[0] in ("ref", "deref"):
+                                base = base[1]
+                            if base[0] == "param" and (f.self_adt or "").endswith(owner):
+                                hits.append((f.short, f.loc(t.get("line"))))
+        chk.check(not hits, "E6", "%svrings:%s" % (tag, owner), "%s.vrings is written only by the constructor" % owner,
+                  "%s.vrings is modified in %s: the workers keep the ring objects they were given at construction, so a replaced ring "
+                  "is no longer the one its kicks are dispatched on" % (owner, sorted({h[0] for h in hits})), hits[0][1] if hits else None)
